@@ -110,7 +110,16 @@ def load_known() -> dict[str, dict]:
     path = os.path.join(VERIF, "known_findings.json")
     with open(path) as f:
         data = json.load(f)
-    return {e["key"]: e for e in data["findings"]}
+    out = {e["key"]: e for e in data["findings"]}
+    # development aid only (never set by MANIFEST commands): proposed entries under review
+    extra = os.environ.get("OPV_EXTRA_FINDINGS")
+    if extra:
+        for pth in extra.split(":"):
+            if os.path.exists(pth):
+                with open(pth) as f:
+                    for e in json.load(f)["findings"]:
+                        out.setdefault(e["key"], e)
+    return out
 
 
 def _run_one_shard(prop_id: str, spec: dict, timeout: float) -> dict | None:
